@@ -12,6 +12,8 @@ package main
 //   - every Read hands over at most one fragment (Deliver event);
 //   - after a response that ends the connection the peer is closed: further Reads see EOF, a Write is a reuse of a
 //     connection the client had to give up (ReuseAfterClose event; there is no specification action for it);
+//   - an exchange marked "early": the first Write finds the response already queued and the connection closed by the
+//     peer (EarlyReply event); the Write fails with EPIPE and the client reads what is there;
 //   - a Read while the peer has nothing to say would block for ever on a real socket: BlockedRead event (no
 //     specification action) and a timeout error.
 
@@ -21,6 +23,7 @@ import (
 	"net"
 	"os"
 	"sync"
+	"syscall"
 	"time"
 )
 
@@ -53,6 +56,7 @@ type peerConn struct {
 	closed     bool // the client closed
 	muted      bool // case is over: no more events
 	written    int  // total bytes written by the client
+	earlyX     int  // exchange this connection answered early (0: none)
 }
 
 func (c *peerConn) Read(p []byte) (int, error) {
@@ -117,10 +121,22 @@ func (c *peerConn) Write(p []byte) (int, error) {
 		return 0, net.ErrClosed
 	}
 	if c.peerClosed {
+		if c.earlyX != 0 && c.earlyX == c.w.x {
+			return 0, syscall.EPIPE // further writes of the exchange the peer answered early
+		}
 		if !c.muted {
 			c.w.ev("ReuseAfterClose", map[string]interface{}{"conn": c.id, "n": len(p)})
 		}
 		return 0, errors.New("c11 peer: broken pipe (the peer has closed this connection)")
+	}
+	// early answer: the peer has queued its response and closed without reading; the write fails with EPIPE
+	// (standard.Conn.ToHertzError turns that into errs.ErrConnectionClosed)
+	if wire, cuts, ok := c.w.onEarly(c); ok {
+		c.in = append(c.in, wire...)
+		c.cuts, c.ci, c.fragRem = cuts, 0, 0
+		c.peerClosed = true
+		c.earlyX = c.w.x
+		return 0, syscall.EPIPE
 	}
 	c.req = append(c.req, p...)
 	c.written += len(p)
